@@ -42,6 +42,13 @@ def main(argv):
         ctx = core.Ctx(prop, tier, seed)
         try:
             payload = json.load(open(path))
+            if "case" not in payload and isinstance(payload.get("first_disagreement"), dict):
+                # replay file of a broken correspondence: re-run the first disagreeing input
+                payload = dict(payload, case=payload["first_disagreement"].get("case"))
+            if payload.get("case") is None:
+                print(json.dumps({"note": "this replay file names broken obligations only; rebuild them with: cd /verif/lean && lake build Jasm Jasm.Proofs.ConstsTie",
+                                  "broken": payload.get("broken_proof_obligations")}, indent=1))
+                return 0
             out = mod.replay(ctx, payload)
             print(json.dumps(out, indent=1, default=str))
         finally:
